@@ -23,7 +23,7 @@ import (
 func init() {
 	reg.Register(&reg.Spec{ID: "C30",
 		Imports: "From verif Require Import lib.Base model.C30. From Coq Require Import Init.Byte.",
-		Judge:   "C30.judge", Shard: 250, Run: run})
+		Judge:   "C30.judge", Shard: 500, Run: run})
 }
 
 // ---------------------------------------------------------------- Coq terms
@@ -772,6 +772,17 @@ func (e *env) oneTrace(planted int) {
 		rec.get(a2)
 		settle(base, maxSettle)
 		rec.get(a2)
+	case 6: // a late result arrives while a code of the same length is current
+		g.close()
+		rec.get(a)
+		g.pass()
+		rec.get(a2)
+		g.releaseAll()
+		settle(base, maxSettle)
+		rec.get(a2)
+		rec.get(a)
+		settle(base, maxSettle)
+		rec.get(a)
 	default:
 		kind = "random"
 		randomDelay.Store(true)
@@ -909,7 +920,7 @@ func run(c *reg.Ctx) {
 		reps = 40
 	}
 	for i := 0; i < reps; i++ {
-		for p := 1; p <= 5; p++ {
+		for p := 1; p <= 6; p++ {
 			e.oneTrace(p)
 		}
 	}
